@@ -35,6 +35,22 @@ pub static mut TAGGED_DROPS: usize = 0;
 /// tables constructed minus tables destroyed (a forgotten table keeps this positive)
 pub static mut LIVE_TABLES: isize = 0;
 
+
+/// Repeats a statement block exactly CAP times without a loop (CBMC does not have to discover the bound).
+macro_rules! rep {
+    ($b:block) => {
+        $b
+        $b
+        $b
+        #[cfg(not(vmap_cap3))]
+        $b
+        #[cfg(vmap_cap6)]
+        $b
+        #[cfg(vmap_cap6)]
+        $b
+    };
+}
+
 type Slots<K, V> = [Option<(K, V)>; CAP];
 
 pub struct HashMap<K, V> {
@@ -110,12 +126,13 @@ impl<K, V> HashMap<K, V> {
             }
         }
         let mut i = 0;
-        while i < CAP {
+        rep!({
             if slots[i].is_none() {
                 return i;
             }
             i += 1;
-        }
+        });
+        let _ = i;
         kani::assert(false, "vmap capacity exceeded");
         kani::assume(false);
         0
@@ -124,10 +141,11 @@ impl<K, V> HashMap<K, V> {
     pub fn clear(&mut self) {
         if let Some(b) = &mut self.store {
             let mut i = 0;
-            while i < CAP {
+            rep!({
                 b[i] = None;
                 i += 1;
-            }
+            });
+            let _ = i;
         }
     }
 
@@ -135,12 +153,13 @@ impl<K, V> HashMap<K, V> {
         let mut n = 0;
         if let Some(s) = self.slots() {
             let mut i = 0;
-            while i < CAP {
+            rep!({
                 if s[i].is_some() {
                     n += 1;
                 }
                 i += 1;
-            }
+            });
+            let _ = i;
         }
         n
     }
@@ -148,12 +167,13 @@ impl<K, V> HashMap<K, V> {
     pub fn is_empty(&self) -> bool {
         if let Some(s) = self.slots() {
             let mut i = 0;
-            while i < CAP {
+            rep!({
                 if s[i].is_some() {
                     return false;
                 }
                 i += 1;
-            }
+            });
+            let _ = i;
         }
         true
     }
@@ -186,14 +206,15 @@ impl<K: PartialEq, V> HashMap<K, V> {
             None => return None,
         };
         let mut i = 0;
-        while i < CAP {
+        rep!({
             if let Some((kk, _)) = &slots[i] {
                 if kk == k {
                     return Some(i);
                 }
             }
             i += 1;
-        }
+        });
+        let _ = i;
         None
     }
 
@@ -288,13 +309,15 @@ impl<'a, K, V> Iterator for Iter<'a, K, V> {
             Some(s) => s,
             None => return None,
         };
-        while self.pos < CAP {
+        rep!({
+            if self.pos < CAP {
             let i = self.pos;
             self.pos += 1;
             if let Some(kv) = &slots[i] {
                 return Some((&kv.0, &kv.1));
             }
-        }
+            }
+        });
         None
     }
 }
@@ -319,13 +342,15 @@ impl<K, V> Iterator for IntoIter<K, V> {
             Some(b) => &mut **b,
             None => return None,
         };
-        while self.pos < CAP {
+        rep!({
+            if self.pos < CAP {
             let i = self.pos;
             self.pos += 1;
             if let Some(kv) = slots[i].take() {
                 return Some(kv);
             }
-        }
+            }
+        });
         None
     }
 }
@@ -357,7 +382,8 @@ where
             Some(b) => &mut **b,
             None => return None,
         };
-        while self.pos < CAP {
+        rep!({
+            if self.pos < CAP {
             let i = self.pos;
             self.pos += 1;
             let hit = match &mut slots[i] {
@@ -367,7 +393,8 @@ where
             if hit {
                 return slots[i].take();
             }
-        }
+            }
+        });
         None
     }
 }
@@ -386,14 +413,15 @@ impl<T: PartialEq> HashSet<T> {
     pub fn contains(&self, t: &T) -> bool {
         if let Some(b) = &self.store {
             let mut i = 0;
-            while i < CAP {
+            rep!({
                 if let Some(x) = &b[i] {
                     if x == t {
                         return true;
                     }
                 }
                 i += 1;
-            }
+            });
+            let _ = i;
         }
         false
     }
@@ -407,13 +435,14 @@ impl<T: PartialEq> HashSet<T> {
         }
         if let Some(b) = &mut self.store {
             let mut i = 0;
-            while i < CAP {
+            rep!({
                 if b[i].is_none() {
                     b[i] = Some(t);
                     return true;
                 }
                 i += 1;
-            }
+            });
+            let _ = i;
         }
         kani::assert(false, "vmap capacity exceeded");
         kani::assume(false);
